@@ -583,6 +583,9 @@ fn extreme_configurations_work() {
             ("buffer_items 0, insert buffer 1", 100, 100, 0, 1, Duration::from_secs(1), true, false),
             ("num_counters 1, max_cost 1", 1, 1, 1, 4, Duration::from_millis(5), false, true),
             ("max_cost i64::MAX, num_counters 3", 3, i64::MAX, 7, 16, Duration::from_secs(3600), true, true),
+            ("max_cost -1", 100, -1, 64, 1024, Duration::from_millis(5), true, true),
+            ("max_cost -100, internal cost counted", 70, -100, 3, 8, Duration::from_millis(5), false, false),
+            ("max_cost i64::MIN", 5, i64::MIN, 64, 32, Duration::from_secs(1), true, false),
         ];
         for (name, nc, mc, bi, bs, cd, metrics, ignore) in configs {
             let script = format!("Cache::builder({}, {}).set_buffer_items({}).set_buffer_size({}).set_cleanup_duration({:?}).set_metrics({}).set_ignore_internal_cost({}) [{}]; insert x3; wait; get; update; insert_with_ttl; remove; wait; clear; insert; wait; close", nc, mc, bi, bs, cd, metrics, ignore, name);
